@@ -578,6 +578,49 @@ func (r *runner) inject(op M, res M) {
 	}
 }
 
+// fragmix injects the IPv4 fragments of SEVERAL UDP datagrams interleaved in a given order
+// (op fields: dgrams: [{src,sport,dst,dport,n,seed,ipid,cuts,proto?}], order: [[dgram index, fragment index], ...]).
+// One `inject` event per datagram is logged immediately before the fragment that completes it.
+func (r *runner) fragmix(op M, tr *vh.Trace) {
+	link := r.h.Links[tcpip.NICID(geti(op, "nic", 1))]
+	type dg struct {
+		spec  M
+		frags [][]byte
+		left  int
+	}
+	var dgs []*dg
+	for _, x := range vh.List(op["dgrams"]) {
+		m := vh.Map(x)
+		src, dst := []byte(addrOf(gets(m, "src", ""))), []byte(addrOf(gets(m, "dst", "")))
+		data := wire.Pattern(geti(m, "seed", 0), geti(m, "n", 0))
+		l4 := wire.BuildUDP(src, dst, uint16(geti(m, "sport", 0)), uint16(geti(m, "dport", 0)), data, wire.UDPOpts{})
+		bounds := append([]int{0}, vh.Ints(m["cuts"])...)
+		bounds = append(bounds, len(l4))
+		d := &dg{spec: m}
+		for i := 0; i+1 < len(bounds); i++ {
+			d.frags = append(d.frags, wire.BuildIPv4(src, dst, uint8(geti(m, "proto", 17)), l4[bounds[i]:bounds[i+1]],
+				wire.IPv4Opts{ID: uint16(geti(m, "ipid", 1)), FragOff: bounds[i], MF: i+2 < len(bounds)}))
+		}
+		d.left = len(d.frags)
+		dgs = append(dgs, d)
+	}
+	for _, o := range vh.List(op["order"]) {
+		oi := vh.Ints(o)
+		d := dgs[oi[0]]
+		d.left--
+		if d.left == 0 && geti(d.spec, "proto", 17) == 17 {
+			ev := M{"ev": "op", "op": "inject", "kind": "udp", "v": 4, "nic": geti(op, "nic", 1), "frags": len(d.frags)}
+			for _, k := range []string{"src", "sport", "dst", "dport", "n", "seed", "ipid"} {
+				ev[k] = d.spec[k]
+			}
+			ev["pay"] = pay(wire.Pattern(geti(d.spec, "seed", 0), geti(d.spec, "n", 0)))
+			canonAddrs(ev)
+			tr.Log(ev)
+		}
+		link.Inject(wire.ProtoIPv4, d.frags[oi[1]], "")
+	}
+}
+
 func runScenario(si int, sc scenario, tr *vh.Trace) {
 	clock := wire.NewClock()
 	var specs []wire.NICSpec
@@ -648,6 +691,10 @@ func runScenario(si int, sc scenario, tr *vh.Trace) {
 			canonAddrs(res)
 			tr.Log(res)
 			r.inject(op, M{})
+			continue
+		}
+		if vh.Str(op["op"]) == "fragmix" {
+			r.fragmix(op, tr)
 			continue
 		}
 		res := r.do(op)
